@@ -69,6 +69,8 @@ def run_entry(run, prog, entry, stub_map, loop_bound=8, max_paths=5000, timeout_
         raise common.BuildError('harness entry %s not found in the SSA dump' % entry)
     ex = Exec(prog, stub_map, loop_bound=loop_bound, max_paths=max_paths, timeout_ms=timeout_ms)
     ex.trace_calls = set(trace_calls)
+    if run.thorough and 'GOSYM_TIME_BUDGET' not in os.environ:
+        ex.time_budget = 5400
     t = time.time()
     try:
         res = ex.run(full)
